@@ -166,6 +166,8 @@ def array_to_bytes(ex, state, arr, n):
     return t
 
 
+py_int_ok_f = z3.Function("py_int_ok", z3.StringSort(), z3.BoolSort())
+py_int_f = z3.Function("py_int", z3.StringSort(), z3.IntSort())
 fmt06d_f = z3.Function("fmt06d", z3.IntSort(), z3.StringSort())
 
 
